@@ -368,6 +368,17 @@ Theorem GenTie_arith_rot_rs : forall bits a rhs,
 Proof. exact g_arith_rot_eq. Qed.
 Print Assumptions GenTie_arith_rot_rs.
 
+(* leading_zeros (`while i > 0 { i -= 1; .. return .. }` as a downward loop with early return),
+   leading_ones, bit_len, byte_len *)
+Theorem GenTie_lz_rs : forall bits a,
+  0 <= bits -> bits + 7 < B -> 64 * nlimbs bits < B -> length a = nlimbsN bits -> Forall inW a ->
+  g_leading_zeros bits (nlimbs bits) a = Bits.leading_zeros bits a /\
+  g_leading_ones bits (nlimbs bits) a = Bits.leading_ones bits a /\
+  g_bit_len bits (nlimbs bits) a = Bits.bit_len bits a /\
+  g_byte_len bits (nlimbs bits) a = Bits.byte_len bits a.
+Proof. exact g_lz_family_eq. Qed.
+Print Assumptions GenTie_lz_rs.
+
 (* the premises are satisfiable and the generated code computes: reciprocal(2^63) = 2^64 - 1 *)
 Example GenTie_nonvacuous :
   g_reciprocal_mg10 (2 ^ 63) = Val (2 ^ 64 - 1) /\ g_mask 65 = Val 1 /\ g_nlimbs 65 = Val 2 /\
@@ -388,6 +399,8 @@ Example GenTie_nonvacuous :
   g_rotate_left 65 2 [0; 1] 1 = Val [1; 0] /\
   g_arithmetic_shr 65 2 [0; 1] 64 = Val [2 ^ 64 - 1; 1] /\
   g_bitxor 65 2 [5; 1] [3; 1] = Val [6; 0] /\
+  g_leading_zeros 65 2 [5; 0] = Val 62 /\
+  g_byte_len 65 2 [0; 1] = Val 9 /\
   g_square_redc 2 [5; 0] [9; 1] 0x71c71c71c71c71c7 = Val [14119730031728298775; 0] /\
   g_div_nxm_normalized [0x1656178c14142000; 0x821415dfe9e81612; 0x1616561616161616; 0x96000016820016]
                        [0x1415dfe9e8161414; 0x1656161616161682; 0x9600001682001616]
